@@ -49,7 +49,34 @@ func GenComp(r *common.Rand, sh Shape, g *common.Gen) string {
 	return strconv.FormatUint(t, 10) + ":" + v
 }
 
+// a name dominated by EMPTY components (2 bytes each on the wire): runs of 4..12 of them, optionally
+// between ordinary components — the densest names there are (most components per byte)
+func GenDenseName(r *common.Rand, g *common.Gen) string {
+	var sb strings.Builder
+	if r.Chance(1, 2) {
+		sb.WriteString("/8:61")
+	}
+	for k := r.Range(4, 12); k > 0; k-- {
+		if r.Chance(1, 8) {
+			sb.WriteString("/" + strconv.FormatUint(common.Pick(r, []uint64{1, 32, 50, 54}), 10) + ":")
+		} else {
+			sb.WriteString("/8:")
+		}
+	}
+	switch r.Intn(3) {
+	case 0:
+		sb.WriteString("/8:61")
+	case 1:
+		sb.WriteString("/50:07")
+	}
+	g.Stat("name-dense-empty")
+	return sb.String()
+}
+
 func GenName(r *common.Rand, sh Shape, g *common.Gen) string {
+	if r.Chance(1, 7) {
+		return GenDenseName(r, g)
+	}
 	n := 0
 	switch x := r.Intn(10); {
 	case x == 0:
@@ -166,6 +193,22 @@ func testSignerTok(r *common.Rand) string {
 	return "t:" + strconv.Itoa(est) + ":" + strconv.Itoa(n)
 }
 
+// WithKeyName gives signers that announce a KeyLocator name a generated one now and then
+func WithKeyName(r *common.Rand, g *common.Gen, signer string) string {
+	if strings.ContainsAny(signer, "@:") || !r.Chance(1, 4) {
+		return signer
+	}
+	switch SigBase(signer) {
+	case "hmac", "hmaccert", "ecc", "ecccert", "eccint", "rsa", "rsacert", "rsaint":
+		g.Stat("keyname-generated")
+		if r.Chance(1, 2) {
+			return signer + "@" + GenDenseName(r, g)
+		}
+		return signer + "@" + GenName(r, Shape{}, g)
+	}
+	return signer
+}
+
 // GenMkd returns an "mkd ..." op line.
 func GenMkd(r *common.Rand, sh Shape, g *common.Gen, signer string) string {
 	var name string
@@ -188,10 +231,10 @@ func GenMkd(r *common.Rand, sh Shape, g *common.Gen, signer string) string {
 			signer = testSignerTok(r)
 			g.Stat("signer-test")
 		} else {
-			signer = common.Pick(r, DataSigners)
+			signer = WithKeyName(r, g, common.Pick(r, DataSigners))
 		}
 	}
-	g.Stat("mkd-" + strings.SplitN(signer, ":", 2)[0])
+	g.Stat("mkd-" + SigBase(signer))
 	return "mkd " + name + " " + optNat(r, natBoundaries, ^uint64(0)) + " " + optNat(r, msBoundaries, 9223372036854) + " " + fb + " " +
 		GenBufs(r, sh, g, true) + " " + signer
 }
@@ -233,7 +276,7 @@ func GenMki(r *common.Rand, sh Shape, g *common.Gen, signer string) string {
 			signer = testSignerTok(r)
 			g.Stat("signer-test")
 		} else {
-			signer = common.Pick(r, IntSigners)
+			signer = WithKeyName(r, g, common.Pick(r, IntSigners))
 		}
 	}
 	ap := GenBufs(r, sh, g, true)
@@ -243,7 +286,7 @@ func GenMki(r *common.Rand, sh Shape, g *common.Gen, signer string) string {
 	if signer != "none" && ap == "nil" && r.Chance(3, 4) {
 		ap = GenBufs(r, sh, g, false)
 	}
-	g.Stat("mki-" + strings.SplitN(signer, ":", 2)[0])
+	g.Stat("mki-" + SigBase(signer))
 	if ap != "nil" {
 		g.Stat("mki-params")
 	}
